@@ -144,6 +144,21 @@ func (c *UDPConn) ReadFrom(p []byte) (n int, addr net.Addr, err error) {
 			return n, ibData.from, nil
 
 		case <-c.readTimer.C:
+			// The deadline stays exceeded for every later call until
+			// SetReadDeadline moves it: make the timer channel ready again.
+			c.readTimer.Reset(0)
+
+			// A closed socket reports that it is closed, also when an old
+			// deadline is still exceeded.
+			if c.isClosed() {
+				return 0, nil, &net.OpError{
+					Op:   "read",
+					Net:  c.LocalAddr().Network(),
+					Addr: c.LocalAddr(),
+					Err:  errClosed,
+				}
+			}
+
 			return 0, nil, &net.OpError{
 				Op:   "read",
 				Net:  c.LocalAddr().Network(),
